@@ -15,6 +15,7 @@ var hdReuse *lz4.Reader
 
 func init() {
 	extraOps["HD"] = implHD
+	extraOps["HM"] = implHM
 	generators["hdr"] = genHD
 }
 
@@ -66,6 +67,20 @@ func implHD(f []string, o *oracleSink) string {
 		zr := lz4.NewReader(bytes.NewReader(full))
 		_, rerr := zr.Read(make([]byte, 16))
 		rOK := rerr == nil || rerr == io.EOF
+		// the same through sources that deliver the header in pieces: one byte at a time, and five at a time
+		// (which cuts the content-size field)
+		if c == int(right) || c == int(right^1) {
+			for _, chunk := range []int{1, 5} {
+				if !hasSize && chunk == 5 {
+					continue
+				}
+				zc := lz4.NewReader(&scriptSrc{data: full, chunk: chunk, failAt: -1})
+				_, cerr := zc.Read(make([]byte, 16))
+				if errName(cerr) != errName(rerr) || (rOK && zc.Size() != zr.Size()) {
+					incons += fmt.Sprintf("fragmented-source(chunk=%d):read=%s/size=%d@%d ", chunk, errName(cerr), uint64(zc.Size()), c)
+				}
+			}
+		}
 		if ok != rOK && !(ok && !rOK) {
 			incons += fmt.Sprintf("vfh=%v/read=%s@%d ", ok, errName(rerr), c)
 		}
@@ -153,6 +168,39 @@ func implHD(f []string, o *oracleSink) string {
 	return fmt.Sprintf("%s ; %s ; %s notes", res, incons, note)
 }
 
+// an empty frame: magic, FLG (version 1, independent blocks), BD (64 KiB), header checksum, end mark
+var emptyFrame = func() []byte {
+	d := []byte{0x60, 0x40}
+	return append(append([]byte{0x04, 0x22, 0x4D, 0x18}, d...), byte(refXXH32(d)>>8), 0, 0, 0, 0)
+}()
+
+// HM <word> : the first word of the input is <word>; a skip length of 4, four bytes, and an empty
+// frame follow.  prints vfh=<bool>/<err> read=<n>/<err>
+func implHM(f []string, o *oracleSink) string {
+	m := uint32(atou(f[1]))
+	in := append(le32b(m), le32b(4)...)
+	in = append(in, 9, 8, 7, 6)
+	in = append(in, emptyFrame...)
+	ok, err := lz4.ValidFrameHeader(in)
+	zr := lz4.NewReader(bytes.NewReader(in))
+	n, rerr := zr.Read(make([]byte, 16))
+	res := fmt.Sprintf("vfh=%v/%s read=%d/%s", ok, errName(err), n, errName(rerr))
+	note := "hdr=ok"
+	exp := ""
+	switch {
+	case m == 0x184D2204 || m == 0x184C2102:
+	case m >= 0x184D2A50 && m <= 0x184D2A5F:
+		exp = "vfh=true/ok read=0/eof"
+	default:
+		// not a magic: ValidFrameHeader says false without error, the Reader reports an invalid frame
+		exp = "vfh=false/ok read=0/badmagic"
+	}
+	if exp != "" && res != exp {
+		note = "HDR-MISMATCH:expected[" + strings.ReplaceAll(exp, " ", "_") + "]"
+	}
+	return fmt.Sprintf("%s ; acc=%d ; %s notes", res, m, note)
+}
+
 func genHD(w *bufio.Writer, thorough bool, r *Rng) {
 	mode := "q"
 	if thorough {
@@ -173,6 +221,9 @@ func genHD(w *bufio.Writer, thorough bool, r *Rng) {
 			fmt.Fprintf(w, "HD %d %d - %s\n", flg, bd, mode)
 		}
 	}
-	// a non-magic first word: ValidFrameHeader returns false without error
-	_ = r
+	// first words that are not the frame magic: ValidFrameHeader returns false without error unless it is
+	// one of the sixteen skippable magics (or the legacy magic)
+	for _, m := range magicWords(r) {
+		fmt.Fprintf(w, "HM %d\n", m)
+	}
 }
